@@ -68,6 +68,8 @@ func runReaders(w *out.W, tier, outDir string) {
 		readCase{goose, "-- +goose Up\nSELECT 1;\n" + long + "\nSELECT 2;\n-- +goose Down\nSELECT 3;\n", []string{"SELECT 1;", long, "SELECT 2;"}, "goose 65536-byte line (oracle only)"},
 		readCase{dbmate, "-- migrate:up\nSELECT 1;\n" + long + "\nSELECT 2;\n-- migrate:down\nSELECT 3;\n", []string{"SELECT 1;", long, "SELECT 2;"}, "dbmate 65536-byte line (oracle only)"},
 	)
+	// third-party files as people write them (exhaustive small domain, with required statement lists)
+	cases = append(cases, shapeCases()...)
 	// perturbations of real formatter output
 	r := rng.FromEnv(0xC0704)
 	n := 400
